@@ -90,11 +90,13 @@ KINDS = {
     "gen_impl": K(name="gen_impl", sig="impl std::fmt::Debug + Clone + Send + Sync + 'static",
                   decl="let p{i}: u16 = {v};", arg="p{i}", canon_m="m{i}", canon_a="&a{i}", canon_c="&p{i}",
                   base="u16", generic="impl", elem_ty="u16"),
-    "gen_trait": K(name="gen_trait", sig="G", decl="let p{i}: u16 = {v};", arg="p{i}", canon_m="m{i}",
-                   canon_a="&a{i}", canon_c="&p{i}", base="u16", generic="trait", elem_ty="u16"),
+    # the trait-level generic is instantiated at another type (i16) than the method-level ones (u16): the two groups
+    # of type arguments must not get mixed up
+    "gen_trait": K(name="gen_trait", sig="G", decl="let p{i}: i16 = {v};", arg="p{i}", canon_m="m{i}",
+                   canon_a="&a{i}", canon_c="&p{i}", base="i16", generic="trait", elem_ty="i16"),
 }
 
-PROBE_FN = {"u32": "pr_u32", "str": "pr_str", "bytes": "pr_bytes", "nodbg": "pr_nodbg", "u16": "pr_u16",
+PROBE_FN = {"u32": "pr_u32", "str": "pr_str", "bytes": "pr_bytes", "nodbg": "pr_nodbg", "u16": "pr_u16", "i16": "pr_i16",
             "tup": "pr_tup", "arr": "pr_arr"}
 
 
@@ -104,7 +106,7 @@ def value_of(i):
 
 def py_probe(kind: Kind, i, mutated=False):
     v = value_of(i)
-    if kind.base in ("u32", "u16"):
+    if kind.base in ("u32", "u16", "i16"):
         return str(v + 1000) if (mutated and kind.mutable) else str(v)
     if kind.base == "str":
         return ("s" if kind.name == "string" else "r") + str(v)
@@ -126,7 +128,7 @@ def py_debug(kind: Kind, i):
     if not kind.debug:
         return None
     v = value_of(i)
-    if kind.base in ("u32", "u16"):
+    if kind.base in ("u32", "u16", "i16"):
         if kind.name == "opt_ref":
             return f"Some({v})"
         return str(v)
@@ -202,7 +204,9 @@ def supported(s: Shape) -> Optional[str]:
         return "one trait generic at most"
     if s.extra.get("type_tag") and s.asyncness != "sync":
         return "type tags only generated for sync methods"
-    if s.named_self_lifetime and (s.receiver != "ref" or s.asyncness != "sync"):
+    if s.named_self_lifetime and s.receiver == "mut" and s.asyncness == "sync" and s.ret in ("self_mut", "u32", "unit"):
+        pass  # `fn m<'s>(&'s mut self, ..) -> &'s mut u32`
+    elif s.named_self_lifetime and (s.receiver != "ref" or s.asyncness != "sync"):
         return "named self lifetime only for &'a self sync methods"
     if s.named_self_lifetime and s.ret == "param_ref":
         return "lifetime name clash avoided"
@@ -254,6 +258,7 @@ pub struct Wr<'a>(pub &'a mut u32);
 
 pub fn pr_u32(x: &u32) -> String { x.to_string() }
 pub fn pr_u16(x: &u16) -> String { x.to_string() }
+pub fn pr_i16(x: &i16) -> String { x.to_string() }
 pub fn pr_str(x: &str) -> String { x.to_string() }
 pub fn pr_bytes(x: &[u8]) -> String { format!("{x:?}").replace(' ', "") }
 pub fn pr_nodbg(x: &NoDbg) -> String { x.0.to_string() }
@@ -296,6 +301,8 @@ pub fn panic_text(p: Box<dyn std::any::Any + Send>) -> String {
 
 
 def ret_sig(s: Shape):
+    if s.named_self_lifetime and s.ret == "self_mut":
+        return " -> &'s mut u32"
     if s.named_self_lifetime and s.ret in ("self_ref", "self_str", "opt_self_ref"):
         # calibration: `fn m<'s>(&'s self) -> &u32` (elided output) expands to an undeclared lifetime `'__u`
         return {"self_ref": " -> &'s u32", "self_str": " -> &'s str", "opt_self_ref": " -> Option<&'s u32>"}[s.ret]
@@ -351,7 +358,8 @@ def result_probe(s: Shape):
 
 
 def receiver_sig(s: Shape):
-    return {"ref": "&'s self" if s.named_self_lifetime else "&self", "mut": "&mut self", "owned": "self",
+    return {"ref": "&'s self" if s.named_self_lifetime else "&self",
+            "mut": "&'s mut self" if s.named_self_lifetime else "&mut self", "owned": "self",
             "box": "self: Box<Self>", "rc": "self: std::rc::Rc<Self>", "arc": "self: std::sync::Arc<Self>",
             "pin": "self: std::pin::Pin<&mut Self>"}[s.receiver]
 
@@ -436,7 +444,7 @@ def mockfn_expr(s: Shape):
     gen_args = []
     for k in kinds:
         if k.generic == "trait":
-            gen_args.insert(0, "u16")
+            gen_args.insert(0, "i16")
     # order of with_types params: trait generics first, then method generics / impl traits in declaration order
     if s.extra.get("type_tag"):
         gen_args.append("u8")
@@ -530,10 +538,10 @@ def render_forward(s: Shape, idx: int):
     rp_expr, rp_expect = result_probe(s)
     fish = turbofish(s)
     call = f"{recv}.m{fish}({args})"
-    trait_use = "Tr::<u16>::m" if any(k.generic == "trait" for k in kinds) else None
+    trait_use = "Tr::<i16>::m" if any(k.generic == "trait" for k in kinds) else None
     if trait_use:
-        call = f"Tr::<u16>::m{fish}({'&' if s.receiver == 'ref' else ('&mut ' if s.receiver == 'mut' else '')}{recv}, {args})" \
-            if s.receiver in ("ref", "mut") else f"Tr::<u16>::m{fish}({recv}, {args})"
+        call = f"Tr::<i16>::m{fish}({'&' if s.receiver == 'ref' else ('&mut ' if s.receiver == 'mut' else '')}{recv}, {args})" \
+            if s.receiver in ("ref", "mut") else f"Tr::<i16>::m{fish}({recv}, {args})"
     ans = f"&ans_{idx}" if s.ret == "param_ref" else answer_closure(s, idx)
     mock = (f"let u = Unimock::new({mockfn_expr(s)}.next_call({matcher_closure(s, idx)})"
             f".answers({ans}));")
@@ -674,8 +682,8 @@ def render_message(s: Shape, idx: int):
     fish = turbofish(s)
     call = f"{recv}.m{fish}({args})"
     if any(k.generic == "trait" for k in kinds):
-        call = f"Tr::<u16>::m{fish}({'&' if s.receiver == 'ref' else ('&mut ' if s.receiver == 'mut' else '')}{recv}, {args})" \
-            if s.receiver in ("ref", "mut") else f"Tr::<u16>::m{fish}({recv}, {args})"
+        call = f"Tr::<i16>::m{fish}({'&' if s.receiver == 'ref' else ('&mut ' if s.receiver == 'mut' else '')}{recv}, {args})" \
+            if s.receiver in ("ref", "mut") else f"Tr::<i16>::m{fish}({recv}, {args})"
     # rustc's own Debug at the call site (for the kinds that implement it)
     dbg = []
     for i, k in enumerate(kinds):
@@ -899,6 +907,9 @@ def core_shapes_forward():
     for params in (["u32"], ["ref_str", "mut_u32"], []):
         for ret in ("self_ref", "u32", "self_str"):
             shapes.append(Shape("ref", list(params), ret, named_self_lifetime=True))
+    for params in (["u32"], ["ref_str", "mut_u32"], []):
+        for ret in ("self_mut", "u32"):
+            shapes.append(Shape("mut", list(params), ret, named_self_lifetime=True))
     out, seen = [], set()
     for s in shapes:
         if supported(s) is None and s.key() not in seen:
